@@ -25,7 +25,9 @@ class Unsupported(Exception):
 
 
 class Outcome:
-    def __init__(self, kind, store, calls, conds, node=None, exc=None, value=None):
+    def __init__(self, kind, store, calls, conds, node=None, exc=None, value=None, locs=None, ret=None):
+        self.locs = locs or {}      # local name (or `name.attr` of a local object) -> expression over the entry state
+        self.ret = ret              # the returned expression as written (before substitution)
         self.kind = kind            # 'return' | 'raise' | 'fall'
         self.store = store          # field name -> expression (ast) over the entry state
         self.calls = calls          # [ast.Call with substituted arguments], in order
@@ -54,6 +56,8 @@ class _Sub(ast.NodeTransformer):
     def visit_Attribute(self, node):
         if isinstance(node.ctx, ast.Load) and isinstance(node.value, ast.Name) and node.value.id == 'self' and node.attr in self.fields:
             return copy.deepcopy(self.fields[node.attr])
+        if isinstance(node.ctx, ast.Load) and isinstance(node.value, ast.Name) and f'{node.value.id}.{node.attr}' in self.locs:
+            return copy.deepcopy(self.locs[f'{node.value.id}.{node.attr}'])       # a field written on a local object earlier on the path
         return self.generic_visit(node)
 
     def visit_Lambda(self, node):
@@ -110,6 +114,26 @@ class PathSum:
         ge = GuardEval(self.prog, self.cls, self.env, self.enums)
         return ge.ev(t), unparse(t)
 
+    def _fold(self, e):
+        """conditional expressions whose test the case decides are replaced by the chosen operand"""
+        me = self
+
+        class F(ast.NodeTransformer):
+            def visit_IfExp(self, node):
+                self.generic_visit(node)
+                r = GuardEval(me.prog, me.cls, me.env, me.enums).ev(_Arith(me.env).visit(copy.deepcopy(node.test)))
+                if r is True:
+                    return node.body
+                if r is False:
+                    return node.orelse
+                return node
+
+            def visit_Lambda(self, node):
+                return node
+        e = F().visit(e)
+        ast.fix_missing_locations(e)
+        return e
+
     def run(self):
         body = [s for s in self.fn.body if not (isinstance(s, ast.Expr) and isinstance(s.value, ast.Constant))]
         self._block(body, {}, {}, [], [], lambda l, f, c, k: self.outcomes.append(Outcome('fall', f, c, k)))
@@ -123,7 +147,7 @@ class PathSum:
             return k(locs, fields, calls, conds)
         st, rest = stmts[0], stmts[1:]
         nxt = lambda l, f, c, kk: self._block(rest, l, f, c, kk, k)
-        sub = lambda e: _Sub(locs, fields).visit(copy.deepcopy(e))
+        sub = lambda e: self._fold(_Sub(locs, fields).visit(copy.deepcopy(e)))
         if isinstance(st, ast.If):
             r, txt = self._ev(st.test, locs, fields)
             branches = [(True, st.body), (False, st.orelse)]
@@ -144,7 +168,7 @@ class PathSum:
                 self._block(list(blk), dict(locs), dict(fields), list(calls), conds + [(txt, tag)], nxt)
             return
         if isinstance(st, ast.Return):
-            self.outcomes.append(Outcome('return', fields, calls, conds, st, value=sub(st.value) if st.value is not None else None))
+            self.outcomes.append(Outcome('return', fields, calls, conds, st, value=sub(st.value) if st.value is not None else None, locs=dict(locs), ret=st.value))
             return
         if isinstance(st, ast.Raise):
             self.outcomes.append(Outcome('raise', fields, calls, conds, st, exc=unparse(st.exc) if st.exc is not None else ''))
@@ -184,6 +208,8 @@ class PathSum:
             locs[t.id] = val
         elif isinstance(t, ast.Attribute) and isinstance(t.value, ast.Name) and t.value.id == 'self':
             fields[t.attr] = val
+        elif isinstance(t, ast.Attribute) and isinstance(t.value, ast.Name) and t.value.id in locs:
+            locs[f'{t.value.id}.{t.attr}'] = val          # a field of an object created on this path and held in a local
         elif isinstance(t, (ast.Tuple, ast.List)) and isinstance(val, (ast.Tuple, ast.List)) and len(t.elts) == len(val.elts):
             for a, b in zip(t.elts, val.elts):          # the right-hand side was substituted as a whole before any binding
                 self._bind(a, b, locs, fields)
